@@ -156,3 +156,36 @@ CONTRACTS[M + "set_tuning"] = dict(
                             ("stored-on-the-track-and-the-instrument",
                              "same_object(self.tuning, tuning) and same_object(self.instrument.tuning, tuning)")],
                    modifies=["param:self", "param:self.instrument"])])
+
+# '+' on a track: a bar is appended as a bar, anything note-like goes through add_notes with the default value
+CLASSES["TrackPlus"] = {"class": "mingus.containers.track.Track", "fields": {"bars": "list[any]", "instrument": "None"}}
+CONTRACTS[M + "__add__"] = dict(
+    params={"self": "TrackPlus", "value": "NoteContainer"}, returns="bool",
+    emits="[('add_notes', value, None)]",
+    callee_events={M + "add_notes": {"name": "add_notes", "delegation": True}, M + "add_bar": {"name": "add_bar", "delegation": True}},
+    modifies=["param:self"], properties=["C14"], battery=None,
+    variants=[dict(name="name", params={"self": "TrackPlus", "value": "str"}, emits="[('add_notes', value, None)]"),
+              dict(name="note", params={"self": "TrackPlus", "value": "Note"}, emits="[('add_notes', value, None)]"),
+              dict(name="bar", params={"self": "TrackPlus", "value": "BarT"}, returns="TrackAny", emits="[('add_bar', value)]")],
+    notes="event view: which operation '+' delegates to, with which arguments (both are under contract themselves)")
+
+# Composition.add_note: the item goes, as given, to every selected track, in selection order, and to no other
+def _sel_splits():
+    import itertools
+    out = []
+    for k in (0, 1, 2, 3):
+        for r in range(0, k + 1):
+            for sel in itertools.permutations(range(k), r):
+                out.append({"field_types": {"self.tracks": "[" + ",".join(["TrackPlus"] * k) + "]"},
+                            "bind_fields": {"self.selected_tracks": list(sel)}})
+    return out
+
+
+CONTRACTS[C + "add_note"] = dict(
+    params={"self": "CompositionT", "note": "str"}, returns="None",
+    emits="[('add', self.tracks[n], note) for n in self.selected_tracks]",
+    callee_events={M + "__add__": {"name": "add", "with_receiver": True, "delegation": True}},
+    split=_sel_splits(), split_is_domain=True, modifies=["param:self"], properties=["C14", "C15"], battery=None,
+    variants=[dict(name="container", params={"self": "CompositionT", "note": "NoteContainer"})],
+    notes="domain: compositions of 0..3 tracks with every ordered selection of distinct tracks; the SAME item object is "
+          "handed to each selected track's '+' (what '+' does with it is Track.__add__ / add_notes)")
